@@ -262,6 +262,32 @@ def run(prog):
             succs = [s_ for s_ in f.succs(b) if not f.is_cleanup(s_)]
             if any(_reaches_err_return(f, s_, avoid=[o for o in succs if o != s_]) and all(o not in f.reach_from(s_, avoid=[o for o in succs if o != s_]) for o in succs if o != s_) for s_ in succs):
                 n_cmp += 1
+        ok3 = n_cmp >= 3
+        res.inst("variables/size-compared", where=f.loc, bound_tests=n_cmp, ok=ok3)
+        res.oblige(ok3)
+        if not ok3:
+            res.viol("variables/size-compared", f.loc,
+                     "the variable table check compares the reference-chain length and the nesting of the resolved value with limits, but "
+                     "not its size (%d bound tests, 3 needed): variables that each use the previous one twice double the resolved value at "
+                     "every link, and a 1 kB configuration makes the loader allocate until the process is killed" % n_cmp)
+        # .. and concat, which resolves eagerly while the table is being built, stops at a limit too
+        pa = prog.fn_opt(KP + "push_all_atoms")
+        okp = False
+        if pa is not None:
+            res.fn(pa)
+            for b in sorted(pa.reachable()):
+                c = _cmp_with_const(pa, b)
+                if c is None:
+                    continue
+                succs = [s_ for s_ in pa.succs(b) if not pa.is_cleanup(s_)]
+                if any(_reaches_err_return(pa, s_, avoid=[o for o in succs if o != s_]) for s_ in succs):
+                    okp = True
+        res.inst("variables/concat-bounded", where=pa.loc if pa is not None else "parser/src/cfg/mod.rs", ok=okp)
+        res.oblige(okp)
+        if not okp:
+            res.viol("variables/concat-bounded", pa.loc if pa is not None else "parser/src/cfg/mod.rs",
+                     "push_all_atoms (the eager evaluation of `concat` in defvar) builds its result without comparing its length with a "
+                     "limit: `(concat $v $v)` chains double the text at every variable")
         ok2 = n_cmp >= 2
         res.inst("variables/chain-and-nesting-compared", where=f.loc, bound_tests=n_cmp, ok=ok2)
         res.oblige(ok2)
@@ -415,6 +441,23 @@ def run(prog):
                  "references (the alias's whole action again): aliases share actions, so a few dozen aliases that each use the previous "
                  "one twice describe a tree of 2^n actions that the post-parse passes walk node by node")
 
+    # ---- 6b. an action that an any-key entry of a deflayermap puts into many positions is charged per position
+    pl = prog.fn_opt(KP + "parse_layers")
+    if pl is not None:
+        res.fn(pl)
+        okl = False
+        cn_ = {c.norm for c in counters}
+        for bi, t in pl.calls():
+            if norm_name(callee_name(t) or "") in cn_ and len(t["args"]) > 2:
+                if _derives_from_call(pl, t["args"][2], ("saturating_mul", "checked_mul")) is not None:
+                    okl = True
+        res.inst("actions/any-key-charged-per-position", where=pl.loc, ok=okl)
+        res.oblige(okl)
+        if not okl:
+            res.viol("actions/any-key-charged-per-position", pl.loc,
+                     "parse_layers does not charge the action of a deflayermap any-key entry (`_`, `__`, `___`) to the action budget once per "
+                     "position it fills (count_actions with a product): the action is counted once and stored in up to 767 positions, "
+                     "which the passes after parsing walk one by one - the budget no longer bounds their work")
     # ---- 7. an action that is stored twice in its parent is charged twice
     # (aliases share actions: `hold` and `timeout_action` of a tap-hold without an explicit timeout action are the same
     #  parsed action, so a chain of aliases through it doubles the tree per level while the plain count grows by one)
